@@ -84,7 +84,8 @@ def check_canonical_form(it, reg, before, sig, both_sides):
     r.resid("iso_defect", worst, 1e-8)
     r.check(f"{sig}.isometry", worst <= 1e-8, f"non-root node deviates from an isometry by {worst:.2e} trace={tr}")
     lib = x.is_canonical()
-    r.check(f"{sig}.is_canonical_agrees", bool(lib) == (worst <= 1e-8) or worst > 1e-9, f"is_canonical()={lib}, harness defect {worst:.2e}")
+    r.check(f"{sig}.is_canonical_agrees", (bool(lib) or worst > 1e-12) and (not lib or worst < 1e-3),
+            f"is_canonical()={lib}, harness isometry defect {worst:.2e}")
     bd = list(x.bond_dims)
     r.check(f"{sig}.root_bond", bd[0] == 1, f"bond dims {bd}")
     if before is not None:
@@ -192,7 +193,7 @@ class C11(Prop):
 
     def run_case(self, case):
         r = Result()
-        it = T.TInterp(case["tree"], r, Hooks(), aux=case.get("aux", False))
+        it = T.TInterp(case["tree"], r, Hooks(), aux=case.get("aux", False), probe_default_todense=True)
         it.run(case["prog"])
         cl = set(r.classes) | set(it.ctx.shape_classes())
         cl.add("ctor=" + case["tree"]["topo"].get("ctor", "random"))
